@@ -45,3 +45,50 @@ Theorem C16_wal_decode_shape : forall bytes s es,
   Wal.decode bytes = Ok (s, es) -> List.Forall shape_entry es.
 Proof. exact Wal_proofs.decode_shape. Qed.
 Print Assumptions C16_wal_decode_shape.
+
+(* ------------------------------------------------------------------------------------------ *)
+(* the read path (ReadPath.v mirrors beatree/index.rs Index::lookup, ops/mod.rs partial_lookup /
+   search_branch / find_key_pos / lookup_blocking, leaf/node.rs LeafNode::get with the standard
+   library's binary_search_by) returns the abstraction of the decoded image                     *)
+From Nomt Require Import ReadPath ReadPath_proofs.
+
+(* every image the decoder produces keeps the branch references and the leaves in step, has no
+   empty branch, and its prefix-compressed separators start with the branch's prefix *)
+Theorem C16_decode_image_ok : forall fs img, decode_image fs = Image.Ok img -> decoded_ok img.
+Proof. exact ReadPath_proofs.decode_image_ok. Qed.
+Print Assumptions C16_decode_image_ok.
+
+(* readpath_refines: on a decoded image whose leaf-order, branch and leaf-page accounting verdicts
+   pass, NOMT's own lookup returns exactly the value the abstraction holds, for every key *)
+Theorem C16_readpath_refines : forall fs img,
+    decode_image fs = Image.Ok img ->
+    wf_leaf_order img = true -> wf_branches img = true -> passes (wf_pages_ln_v img) = true ->
+    forall k, lookup img k = assoc k (abs img).
+Proof. exact ReadPath_proofs.readpath_refines. Qed.
+Print Assumptions C16_readpath_refines.
+
+(* the two levels on their own *)
+Theorem C16_leaf_get_refines : forall l k, ssorted (map e_key (l_entries l)) ->
+    option_map entry_value (leaf_get l k) = assoc k (entries_kv (l_entries l)).
+Proof. exact ReadPath_proofs.leaf_get_refines. Qed.
+Print Assumptions C16_leaf_get_refines.
+
+Theorem C16_partial_lookup_spec : forall bs k, branches_ok bs ->
+    partial_lookup bs k = option_map snd (pick fst (flat_map branch_refs bs) k).
+Proof. exact ReadPath_proofs.partial_lookup_spec. Qed.
+Print Assumptions C16_partial_lookup_spec.
+
+(* the leaf the branch search chooses is the only one that can hold the key *)
+Theorem C16_leaves_in_range_pick : forall ls k,
+    leaves_in_range ls = None -> ssorted (map l_sep ls) ->
+    assoc k (flat_map leaf_kv ls) =
+    match pick l_sep ls k with None => None | Some l => assoc k (leaf_kv l) end.
+Proof. exact ReadPath_proofs.leaves_in_range_pick. Qed.
+Print Assumptions C16_leaves_in_range_pick.
+
+(* a key below every first separator: no branch is consulted and the answer is None *)
+Theorem C16_lookup_absent_below_first : forall img k,
+    (forall b, In b (i_branches img) -> key_ltb k (first_sep b) = true) ->
+    lookup img k = None /\ lookup_trace img k = TNoBranch.
+Proof. exact ReadPath_proofs.lookup_absent_below_first. Qed.
+Print Assumptions C16_lookup_absent_below_first.
